@@ -238,6 +238,12 @@ func (w *Worker) intrinsic(fn *ssa.Function, args []Value) (Value, bool) {
 	case "verifSched":
 		w.schedOn(int(w.concArg(args[0], "verifSched choices")))
 		return nil, true
+	case "verifSchedPreempt":
+		if w.sched == nil {
+			panic(unsupported("verifSchedPreempt before verifSched"))
+		}
+		w.sched.preempt = args[0].(*Term).B
+		return nil, true
 	case "verifSchedDrain":
 		return tt.BV(64, uint64(w.schedDrain())), true
 	case "verifDivZeroPrune":
